@@ -317,7 +317,7 @@ Lemma N_compare_laws : cmp_laws N.compare.
 Proof.
   constructor.
   - intros x y. apply N.compare_antisym.
-  - intros x y z H1 H2. apply N.compare_lt_iff in H1, H2. apply N.compare_lt_iff. lia.
+  - intros x y z H1 H2. apply N.compare_lt_iff in H1. apply N.compare_lt_iff in H2. apply N.compare_lt_iff. eapply N.lt_trans; eassumption.
   - intros x y H z. apply N.compare_eq in H. subst. reflexivity.
 Qed.
 
@@ -370,3 +370,523 @@ Qed.
 
 Lemma elem_cmp_laws : cmp_laws elem_cmp.
 Proof. apply (pullback_laws keys_cmp elem_vals), keys_cmp_laws. Qed.
+
+(* ================================================================== *)
+(* 4. the sort comparator agrees with the spec order on D              *)
+(* ================================================================== *)
+Lemma str_cmp_lex a b : str_cmp a b = lex_cmp N.compare a b.
+Proof.
+  revert b. induction a as [|x a IH]; intros [|y b]; cbn [str_cmp lex_cmp]; try reflexivity.
+  destruct (x ?= y)%N; try reflexivity. apply IH.
+Qed.
+
+Lemma str_cmp_refl a : str_cmp a a = Eq.
+Proof. rewrite str_cmp_lex. apply (cl_refl _ (lex_laws _ N_compare_laws)). Qed.
+
+Lemma wrap64_small z : - two63 <= z < two63 -> wrap64 z = z.
+Proof.
+  intros H. unfold wrap64. rewrite Z.mod_small; [lia|].
+  unfold two63, two64 in *. lia.
+Qed.
+
+Lemma sign_z_of_cmp c : (z_of_cmp c ?= 0) = c.
+Proof. destruct c; reflexivity. Qed.
+
+Lemma Qcompare_inject x y : Qcompare (inject_Z x) (inject_Z y) = (x ?= y).
+Proof. unfold Qcompare, inject_Z. cbn [Qnum Qden]. rewrite !Z.mul_1_r. reflexivity. Qed.
+
+Lemma Qcompare_fx x y p : Qcompare (Qmake x p) (Qmake y p) = (x ?= y).
+Proof.
+  unfold Qcompare. cbn [Qnum Qden]. symmetry. apply Zmult_compare_compat_r. reflexivity.
+Qed.
+
+Lemma Qcompare_int_fx x y p : Qcompare (inject_Z x) (Qmake y p) = (x * Z.pos p ?= y).
+Proof. unfold Qcompare, inject_Z. cbn [Qnum Qden]. rewrite Z.mul_1_r. reflexivity. Qed.
+
+Lemma Qcompare_fx_int x y p : Qcompare (Qmake x p) (inject_Z y) = (x ?= y * Z.pos p).
+Proof. unfold Qcompare, inject_Z. cbn [Qnum Qden]. rewrite Z.mul_1_r. reflexivity. Qed.
+
+Lemma fcmp_sign x y :
+  ((if x =? y then 0 else if x <? y then -1 else 1) ?= 0) = (x ?= y).
+Proof.
+  destruct (Z.eqb_spec x y) as [->|Hne]; [cbn; symmetry; apply Z.compare_refl|].
+  destruct (Z.ltb_spec x y) as [Hlt|Hge].
+  - symmetry. apply Z.compare_lt_iff. exact Hlt.
+  - symmetry. apply Z.compare_gt_iff. lia.
+Qed.
+
+Local Opaque fx_pos two63 two64 parse_int64 parse_float truthy.
+
+Lemma int_reads_exact_inv ta :
+  int_reads_exact (mk TInt ta) = true ->
+  exists z, parse_int64 ta = Some z /\ parse_float ta = Ok (FFin (z * fx_scale)).
+Proof.
+  unfold int_reads_exact. cbn [s_text].
+  destruct (parse_int64 ta) as [z|]; [|discriminate].
+  destruct (parse_float ta) as [[| |fx]| | |]; try discriminate.
+  intros H. apply Z.eqb_eq in H. subst. exists z. split; reflexivity.
+Qed.
+
+Lemma bool_sign l r :
+  ((if Bool.eqb l r then 0 else if l then 1 else -1) ?= 0) = bool_cmp l r.
+Proof. destruct l, r; reflexivity. Qed.
+
+Theorem cmp_agrees a b :
+  pair_ok a b = true -> cmp_sign a b = Some (ord_cmp (vden a) (vden b)).
+Proof.
+  destruct a as [ta xa], b as [tb xb]. unfold pair_ok.
+  intros H. apply andb_true_iff in H as [H H3]. apply andb_true_iff in H as [H1 H2].
+  unfold cmp_sign, cmp, cmp_float_branch, vden in *. unfold den in *. cbn [s_tag s_text] in *.
+  destruct ta, tb; cbn [is_some] in *; try discriminate;
+    repeat match goal with
+    | H : is_some (match ?e with _ => _ end) = true |- _ =>
+        let E := fresh "E" in destruct e eqn:E; cbn [is_some] in H; try discriminate
+    | H : is_some (match ?e with _ => _ end) = true |- _ =>
+        let E := fresh "E" in destruct e eqn:E; cbn [is_some] in H; try discriminate
+    end;
+    cbn [ord_cmp];
+    try reflexivity.
+  all: try (rewrite sign_z_of_cmp).
+  all: try (rewrite bool_sign; reflexivity).
+  - (* null, null *) apply str_eqb_eq in H3. subst. rewrite str_cmp_refl. reflexivity.
+  - (* int, int *)
+    apply andb_true_iff in H3 as [Ha Hb]. apply Z.leb_le in Ha. apply Z.ltb_lt in Hb.
+    rewrite wrap64_small by lia. rewrite Qcompare_inject, <- Z.compare_sub. reflexivity.
+  - (* int, float *)
+    apply int_reads_exact_inv in H3 as (z' & Hz & Hf).
+    match goal with E : parse_int64 xa = Some _ |- _ => rewrite E in Hz; injection Hz as <- end.
+    rewrite Hf. cbn [f_eq f_lt]. rewrite fcmp_sign, Qcompare_int_fx. reflexivity.
+  - (* float, int *)
+    apply int_reads_exact_inv in H3 as (z' & Hz & Hf).
+    match goal with E : parse_int64 xb = Some _ |- _ => rewrite E in Hz; injection Hz as <- end.
+    rewrite Hf. cbn [f_eq f_lt]. rewrite fcmp_sign, Qcompare_fx_int. reflexivity.
+  - (* float, float *)
+    cbn [f_eq f_lt]. rewrite fcmp_sign, Qcompare_fx. reflexivity.
+  - (* str, str *) rewrite str_cmp_lex. reflexivity.
+Qed.
+
+(* ================================================================== *)
+(* 5. sort_by on the consistent domain; comparator laws on D           *)
+(* ================================================================== *)
+Lemma cmp_agrees_ok a b :
+  pair_ok a b = true -> exists z, cmp a b = Ok z /\ (z ?= 0) = ord_cmp (vden a) (vden b).
+Proof.
+  intros H. apply cmp_agrees in H. unfold cmp_sign in H.
+  destruct (cmp a b) as [z| | |]; try discriminate. exists z. split; [reflexivity | congruence].
+Qed.
+
+Lemma less_keys_agrees ka : forall kb,
+  (forall x y, In x ka -> In y kb -> pair_ok x y = true) ->
+  less_keys ka kb = Ok (is_lt (keys_cmp (map vden ka) (map vden kb))).
+Proof.
+  induction ka as [|a ka IH]; intros [|b kb] H; cbn [less_keys map keys_cmp lex_cmp is_lt]; try reflexivity.
+  destruct (cmp_agrees_ok a b) as (z & Hz & Hs); [apply H; left; reflexivity|].
+  rewrite Hz. cbn [bind]. fold (keys_cmp (map vden ka) (map vden kb)). rewrite <- Hs.
+  destruct (Z.compare_spec z 0) as [->|Hlt|Hgt].
+  - cbn. apply IH. intros x y Hx Hy. apply H; right; assumption.
+  - apply Z.ltb_lt in Hlt. rewrite Hlt. reflexivity.
+  - assert (z <? 0 = false) as -> by (apply Z.ltb_ge; lia).
+    assert (0 <? z = true) as -> by (apply Z.ltb_lt; lia). reflexivity.
+Qed.
+
+Lemma less_elem_agrees l a b :
+  consistent l -> In a l -> In b l -> less_elem a b = Ok (elem_lt a b).
+Proof.
+  intros HC Ha Hb. unfold less_elem, elem_lt, elem_cmp, elem_vals.
+  apply less_keys_agrees. intros x y Hx Hy. exact (HC a b Ha Hb x y Hx Hy).
+Qed.
+
+Lemma consistent_perm l l' : Permutation l l' -> consistent l -> consistent l'.
+Proof.
+  intros HP HC a b Ha Hb. apply HC; (eapply Permutation_in; [apply Permutation_sym, HP | assumption]).
+Qed.
+
+Lemma elem_lt_asym a b : elem_lt a b = true -> elem_lt b a = false.
+Proof. apply (cl_ltb_asym _ elem_cmp_laws). Qed.
+
+Lemma elem_lt_nt a b c : elem_lt a b = false -> elem_lt b c = false -> elem_lt a c = false.
+Proof. apply (cl_ltb_nt _ elem_cmp_laws). Qed.
+
+Lemma eqv_elem z y : eqv elem_lt z y = elem_eqb z y.
+Proof.
+  unfold eqv, elem_lt, elem_eqb. rewrite (cl_antisym _ elem_cmp_laws z y).
+  destruct (elem_cmp z y); reflexivity.
+Qed.
+
+Lemma asc_elem a b : asc elem_lt a b <-> elem_le a b.
+Proof.
+  unfold asc, elem_lt, elem_le. rewrite (cl_antisym _ elem_cmp_laws a b).
+  destruct (elem_cmp a b); cbn; split; intro H; try congruence; try discriminate;
+    try (exfalso; apply H; reflexivity).
+Qed.
+
+Theorem sort_by_perm l l' : sort_by l = Ok l' -> Permutation l l'.
+Proof. apply sort_o_perm. Qed.
+
+Theorem sort_by_domain l : consistent l -> sort_by l = Ok (psort elem_lt l).
+Proof. intros HC. apply sort_o_pure. intros a b Ha Hb. eapply less_elem_agrees; eassumption. Qed.
+
+Theorem sort_by_sorted l : consistent l -> exists l', sort_by l = Ok l' /\ StronglySorted elem_le l'.
+Proof.
+  intros HC. exists (psort elem_lt l). split; [apply sort_by_domain, HC|].
+  eapply StronglySorted_weaken; [|apply (psort_sorted elem_lt elem_lt_asym elem_lt_nt)].
+  intros a b. apply asc_elem.
+Qed.
+
+Theorem sort_by_stable l l' :
+  consistent l -> sort_by l = Ok l' -> forall z, filter (elem_eqb z) l' = filter (elem_eqb z) l.
+Proof.
+  intros HC H z. rewrite (sort_by_domain l HC) in H. injection H as <-.
+  rewrite <- (filter_ext _ _ (eqv_elem z)), <- (filter_ext _ _ (eqv_elem z)).
+  apply (psort_stable elem_lt elem_lt_nt).
+Qed.
+
+Theorem sort_by_idempotent l l' : consistent l -> sort_by l = Ok l' -> sort_by l' = Ok l'.
+Proof.
+  intros HC H. pose proof (sort_by_perm _ _ H) as HP.
+  rewrite (sort_by_domain l HC) in H. injection H as <-.
+  rewrite (sort_by_domain _ (consistent_perm _ _ HP HC)).
+  f_equal. apply (psort_idempotent elem_lt elem_lt_asym elem_lt_nt).
+Qed.
+
+Theorem sort_by_unique l l' :
+  consistent l -> Permutation l l' -> StronglySorted elem_le l' ->
+  (forall z, filter (elem_eqb z) l' = filter (elem_eqb z) l) -> sort_by l = Ok l'.
+Proof.
+  intros HC HP HS HF. rewrite (sort_by_domain l HC). f_equal.
+  apply (psort_unique elem_lt elem_lt_asym elem_lt_nt); [exact HP | |].
+  - eapply StronglySorted_weaken; [|exact HS]. intros a b. apply asc_elem.
+  - intros z. rewrite !(filter_ext _ _ (eqv_elem z)). apply HF.
+Qed.
+
+(* comparator laws on D *)
+Theorem cmp_antisym_on a b :
+  pair_ok a b = true -> pair_ok b a = true ->
+  exists c, cmp_sign a b = Some c /\ cmp_sign b a = Some (CompOpp c).
+Proof.
+  intros H1 H2. exists (ord_cmp (vden a) (vden b)). split; [apply cmp_agrees, H1|].
+  rewrite (cmp_agrees _ _ H2). f_equal. apply (cl_antisym _ ord_cmp_laws).
+Qed.
+
+Theorem cmp_trans_on a b c :
+  pair_ok a b = true -> pair_ok b c = true -> pair_ok a c = true ->
+  cmp_le a b -> cmp_le b c -> cmp_le a c.
+Proof.
+  intros H1 H2 H3 (c1 & E1 & N1) (c2 & E2 & N2).
+  rewrite (cmp_agrees _ _ H1) in E1. rewrite (cmp_agrees _ _ H2) in E2.
+  injection E1 as <-. injection E2 as <-.
+  exists (ord_cmp (vden a) (vden c)). split; [apply cmp_agrees, H3|].
+  eapply (cl_not_gt_trans _ ord_cmp_laws); eassumption.
+Qed.
+
+Theorem cmp_total_on a b :
+  pair_ok a b = true -> pair_ok b a = true -> cmp_le a b \/ cmp_le b a.
+Proof.
+  intros H1 H2. destruct (ord_cmp (vden a) (vden b)) eqn:E.
+  - left. exists Eq. split; [rewrite <- E; apply cmp_agrees, H1 | discriminate].
+  - left. exists Lt. split; [rewrite <- E; apply cmp_agrees, H1 | discriminate].
+  - right. exists Lt. split; [|discriminate].
+    rewrite (cmp_agrees _ _ H2). f_equal.
+    rewrite (cl_antisym _ ord_cmp_laws (vden a) (vden b)), E. reflexivity.
+Qed.
+
+(* ================================================================== *)
+(* 6. the operators < <= > >= and min / max                            *)
+(* ================================================================== *)
+Lemma int_op_spec (oe gr : bool) (x y : Z) :
+  (if oe && (x =? y) then true else if gr then y <? x else x <? y) = op_spec oe gr (x ?= y).
+Proof.
+  destruct (Z.compare_spec x y) as [->|Hlt|Hgt]; cbn [op_spec].
+  - rewrite Z.eqb_refl, Z.ltb_irrefl. destruct oe, gr; reflexivity.
+  - assert (x =? y = false) as -> by (apply Z.eqb_neq; lia).
+    assert (x <? y = true) as -> by (apply Z.ltb_lt; lia).
+    assert (y <? x = false) as -> by (apply Z.ltb_ge; lia).
+    rewrite andb_false_r. destruct gr; reflexivity.
+  - assert (x =? y = false) as -> by (apply Z.eqb_neq; lia).
+    assert (x <? y = false) as -> by (apply Z.ltb_ge; lia).
+    assert (y <? x = true) as -> by (apply Z.ltb_lt; lia).
+    rewrite andb_false_r. destruct gr; reflexivity.
+Qed.
+
+Theorem ops_agree oe gr a b :
+  ops_ok a b = true ->
+  compare_scalars oe gr a b = Ok (op_spec oe gr (ord_cmp (vden a) (vden b))).
+Proof.
+  destruct a as [ta xa], b as [tb xb]. unfold ops_ok.
+  intros H. apply andb_true_iff in H as [H H3]. apply andb_true_iff in H as [H1 H2].
+  unfold compare_scalars, float_or_err, vden in *. unfold den in *. cbn [s_tag s_text] in *.
+  destruct ta, tb; cbn [is_some] in *; try discriminate;
+    repeat match goal with
+    | H : is_some (match ?e with _ => _ end) = true |- _ =>
+        let E := fresh "E" in destruct e eqn:E; cbn [is_some] in H; try discriminate
+    end;
+    cbn [ord_cmp bind].
+  - (* null, null *) destruct oe; reflexivity.
+  - (* int, int *) rewrite int_op_spec, Qcompare_inject. reflexivity.
+  - (* int, float *)
+    apply int_reads_exact_inv in H3 as (z' & Hz & Hf).
+    match goal with E : parse_int64 xa = Some _ |- _ => rewrite E in Hz; injection Hz as <- end.
+    rewrite Hf. cbn [bind f_eq f_lt]. rewrite int_op_spec, Qcompare_int_fx. reflexivity.
+  - (* float, int *)
+    apply int_reads_exact_inv in H3 as (z' & Hz & Hf).
+    match goal with E : parse_int64 xb = Some _ |- _ => rewrite E in Hz; injection Hz as <- end.
+    rewrite Hf. cbn [bind f_eq f_lt]. rewrite int_op_spec, Qcompare_fx_int. reflexivity.
+  - (* float, float *)
+    cbn [bind f_eq f_lt]. rewrite int_op_spec, Qcompare_fx. reflexivity.
+  - (* str, str *)
+    apply negb_true_iff in H3. rewrite H3, str_cmp_lex. reflexivity.
+Qed.
+
+Lemma sup_cmp_laws greater : cmp_laws (sup_cmp greater).
+Proof.
+  unfold sup_cmp. destruct greater.
+  - apply (cl_flip (fun x y => ord_cmp (vden x) (vden y))). apply (pullback_laws ord_cmp vden ord_cmp_laws).
+  - apply (pullback_laws ord_cmp vden ord_cmp_laws).
+Qed.
+
+Lemma superl_step greater el best :
+  ops_ok el best = true ->
+  compare_scalars false greater el best = Ok (is_lt (sup_cmp greater el best)).
+Proof.
+  intros H. rewrite (ops_agree _ _ _ _ H). f_equal. unfold sup_cmp.
+  destruct greater.
+  - rewrite (cl_antisym _ ord_cmp_laws (vden el) (vden best)).
+    destruct (ord_cmp (vden el) (vden best)); reflexivity.
+  - destruct (ord_cmp (vden el) (vden best)); reflexivity.
+Qed.
+
+Lemma superl_go_spec greater rest : forall best m,
+  (forall x y, In x (best :: rest) -> In y (best :: rest) -> ops_ok (fst x) (fst y) = true) ->
+  superl_go greater best rest = Ok m ->
+  In m (best :: rest) /\ sup_cmp greater (fst m) (fst best) <> Gt /\
+  forall x, In x rest -> sup_cmp greater (fst m) (fst x) <> Gt.
+Proof.
+  pose proof (sup_cmp_laws greater) as L.
+  induction rest as [|el r IH]; intros best m Hok H; cbn [superl_go] in H.
+  - injection H as <-. split; [left; reflexivity|]. split; [|intros x []].
+    rewrite (cl_refl _ L). discriminate.
+  - rewrite superl_step in H by (apply Hok; [right; left; reflexivity | left; reflexivity]).
+    cbn [bind] in H.
+    destruct (is_lt (sup_cmp greater (fst el) (fst best))) eqn:Eb.
+    + apply IH in H as (Hin & Hle & Hall).
+      2:{ intros x y Hx Hy. apply Hok; [destruct Hx as [<-|Hx] | destruct Hy as [<-|Hy]];
+          try (right; left; reflexivity); right; right; assumption. }
+      assert (Hel : sup_cmp greater (fst el) (fst best) <> Gt).
+      { destruct (sup_cmp greater (fst el) (fst best)); discriminate. }
+      split; [destruct Hin as [<-|Hin]; [right; left; reflexivity | right; right; exact Hin]|].
+      split; [eapply (cl_not_gt_trans _ L); eassumption|].
+      intros x [<-|Hx]; [exact Hle | apply Hall, Hx].
+    + apply IH in H as (Hin & Hle & Hall).
+      2:{ intros x y Hx Hy. apply Hok; [destruct Hx as [<-|Hx] | destruct Hy as [<-|Hy]];
+          try (left; reflexivity); right; right; assumption. }
+      assert (Hbe : sup_cmp greater (fst best) (fst el) <> Gt).
+      { intro E. apply (cl_gt_lt _ L) in E. rewrite E in Eb. discriminate. }
+      split; [destruct Hin as [<-|Hin]; [left; reflexivity | right; right; exact Hin]|].
+      split; [exact Hle|].
+      intros x [<-|Hx]; [eapply (cl_not_gt_trans _ L); eassumption | apply Hall, Hx].
+Qed.
+
+Theorem superlative_spec greater l m :
+  (forall x y, In x l -> In y l -> ops_ok (fst x) (fst y) = true) ->
+  superlative greater l = Ok (Some m) ->
+  In m l /\ forall x, In x l -> sup_cmp greater (fst m) (fst x) <> Gt.
+Proof.
+  intros Hok H. destruct l as [|b r]; cbn [superlative] in H; [discriminate|].
+  destruct (superl_go greater b r) as [m'| | |] eqn:E; cbn [bind] in H; try discriminate.
+  injection H as <-. apply superl_go_spec in E as (Hin & Hle & Hall); [|exact Hok].
+  split; [exact Hin|]. intros x [<-|Hx]; [exact Hle | apply Hall, Hx].
+Qed.
+
+Theorem superlative_defined greater l :
+  (forall x y, In x l -> In y l -> ops_ok (fst x) (fst y) = true) ->
+  l <> [] -> exists m, superlative greater l = Ok (Some m).
+Proof.
+  intros Hok Hne. destruct l as [|b r]; [congruence|]. cbn [superlative].
+  assert (exists m, superl_go greater b r = Ok m) as (m & ->); [|eexists; reflexivity].
+  clear Hne. revert b Hok. induction r as [|el r IH]; intros b Hok; cbn [superl_go]; [eexists; reflexivity|].
+  rewrite superl_step by (apply Hok; [right; left; reflexivity | left; reflexivity]). cbn [bind].
+  apply IH. intros x y Hx Hy.
+  apply Hok; [destruct Hx as [<-|Hx] | destruct Hy as [<-|Hy]];
+    try (destruct (is_lt _); [right; left; reflexivity | left; reflexivity]); right; right; assumption.
+Qed.
+
+(* ================================================================== *)
+(* 7. sort_keys                                                        *)
+(* ================================================================== *)
+Lemma str_cmp_laws : cmp_laws str_cmp.
+Proof.
+  pose proof (lex_laws N.compare N_compare_laws) as L.
+  constructor.
+  - intros x y. rewrite !str_cmp_lex. apply (cl_antisym _ L).
+  - intros x y z. rewrite !str_cmp_lex. apply (cl_trans_lt _ L).
+  - intros x y H z. rewrite !str_cmp_lex in *. apply (cl_eq_congr _ L), H.
+Qed.
+
+Lemma str_ltb_asym a b : str_ltb a b = true -> str_ltb b a = false.
+Proof. apply (cl_ltb_asym _ str_cmp_laws). Qed.
+
+Lemma str_ltb_nt a b c : str_ltb a b = false -> str_ltb b c = false -> str_ltb a c = false.
+Proof. apply (cl_ltb_nt _ str_cmp_laws). Qed.
+
+Section Lookup.
+  Context {V : Type}.
+  Implicit Types (es : list (str * V)) (k : str).
+
+  Lemma lookup_none k es : ~ In k (map fst es) -> lookup k es = None.
+  Proof.
+    induction es as [|[k' v] r IH]; intros H; cbn [lookup]; [reflexivity|].
+    destruct (str_eqb k k') eqn:E.
+    - apply str_eqb_eq in E. subst. exfalso. apply H. left. reflexivity.
+    - apply IH. intro Hin. apply H. right. exact Hin.
+  Qed.
+
+  Lemma lookup_in k es : In k (map fst es) -> exists v, lookup k es = Some v.
+  Proof.
+    induction es as [|[k' v] r IH]; intros H; cbn [lookup]; [destruct H|].
+    destruct (str_eqb k k') eqn:E; [eexists; reflexivity|].
+    destruct H as [H|H]; [cbn in H; subst; rewrite str_eqb_refl in E; discriminate | apply IH, H].
+  Qed.
+
+  Lemma bucket_last_lookup k es : NoDup (map fst es) -> forall acc,
+    bucket_last k es acc = match lookup k es with Some v => Some v | None => acc end.
+  Proof.
+    induction es as [|[k' v] r IH]; intros HN acc; cbn [bucket_last lookup]; [reflexivity|].
+    cbn [map fst] in HN. inversion HN as [|? ? Hnotin HN']; subst.
+    rewrite IH by exact HN'.
+    destruct (str_eqb k k') eqn:E; [|reflexivity].
+    apply str_eqb_eq in E. subst. rewrite (lookup_none _ _ Hnotin). reflexivity.
+  Qed.
+
+  Definition entry_of (es : list (str * V)) (k : str) : list (str * V) :=
+    match bucket_last k es None with Some v => [(k, v)] | None => [] end.
+
+  Lemma lookup_flat_map k es ks : NoDup (map fst es) ->
+    lookup k (flat_map (entry_of es) ks) = if existsb (str_eqb k) ks then lookup k es else None.
+  Proof.
+    intros HN. induction ks as [|k1 ks IH]; cbn [flat_map existsb]; [reflexivity|].
+    unfold entry_of at 1. rewrite (bucket_last_lookup _ _ HN).
+    destruct (str_eqb k k1) eqn:E; cbn [orb].
+    - apply str_eqb_eq in E. subst k1.
+      destruct (lookup k es) as [v|] eqn:El; cbn [app lookup].
+      + rewrite str_eqb_refl. reflexivity.
+      + rewrite IH. destruct (existsb (str_eqb k) ks); reflexivity.
+    - destruct (lookup k1 es) as [v|]; cbn [app lookup]; [rewrite E|]; exact IH.
+  Qed.
+
+  Lemma existsb_str_in k ks : existsb (str_eqb k) ks = true <-> In k ks.
+  Proof.
+    rewrite existsb_exists. split.
+    - intros (x & Hx & E). apply str_eqb_eq in E. subst. exact Hx.
+    - intros H. exists k. split; [exact H | apply str_eqb_refl].
+  Qed.
+
+  Lemma sort_keys_entries_unfold es :
+    sort_keys_entries es = flat_map (entry_of es) (psort str_ltb (map fst es)).
+  Proof. reflexivity. Qed.
+
+  Lemma lookup_sort_keys k es : NoDup (map fst es) -> lookup k (sort_keys_entries es) = lookup k es.
+  Proof.
+    intros HN. rewrite sort_keys_entries_unfold, lookup_flat_map by exact HN.
+    destruct (existsb (str_eqb k) (psort str_ltb (map fst es))) eqn:E; [reflexivity|].
+    symmetry. apply lookup_none. intro Hin.
+    assert (existsb (str_eqb k) (psort str_ltb (map fst es)) = true); [|congruence].
+    apply existsb_str_in. eapply Permutation_in; [apply psort_perm | exact Hin].
+  Qed.
+
+  Lemma keys_flat_map es ks : NoDup (map fst es) -> (forall k, In k ks -> In k (map fst es)) ->
+    map fst (flat_map (entry_of es) ks) = ks.
+  Proof.
+    intros HN. induction ks as [|k1 ks IH]; intros H; cbn [flat_map]; [reflexivity|].
+    rewrite map_app, IH by (intros k Hk; apply H; right; exact Hk).
+    unfold entry_of. rewrite (bucket_last_lookup _ _ HN).
+    destruct (lookup_in k1 es (H k1 (or_introl eq_refl))) as (v & ->). reflexivity.
+  Qed.
+
+  Lemma keys_sort_keys es : NoDup (map fst es) ->
+    map fst (sort_keys_entries es) = psort str_ltb (map fst es).
+  Proof.
+    intros HN. rewrite sort_keys_entries_unfold. apply keys_flat_map; [exact HN|].
+    intros k Hk. eapply Permutation_in; [apply Permutation_sym, psort_perm | exact Hk].
+  Qed.
+End Lookup.
+
+Lemma lookup_map_snd {V W : Type} (f : V -> W) k (es : list (str * V)) :
+  lookup k (map (fun kv => (fst kv, f (snd kv))) es) = option_map f (lookup k es).
+Proof.
+  induction es as [|[k' v] r IH]; cbn [map lookup fst snd]; [reflexivity|].
+  destruct (str_eqb k k'); [reflexivity | exact IH].
+Qed.
+
+Lemma keys_map_snd {V W : Type} (f : V -> W) (es : list (str * V)) :
+  map fst (map (fun kv => (fst kv, f (snd kv))) es) = map fst es.
+Proof. rewrite map_map. apply map_ext. reflexivity. Qed.
+
+Lemma unique_keys_here es : unique_keys (TMap es) -> NoDup (map fst es).
+Proof. intros H. apply (H []). reflexivity. Qed.
+
+Lemma unique_keys_key k es v : unique_keys (TMap es) -> lookup k es = Some v -> unique_keys v.
+Proof. intros H Hl p es' Hg. apply (H (SKey k :: p)). cbn [get]. rewrite Hl. exact Hg. Qed.
+
+Lemma unique_keys_idx n l v : unique_keys (TSeq l) -> nth_error l n = Some v -> unique_keys v.
+Proof. intros H Hl p es' Hg. apply (H (SIdx n :: p)). cbn [get]. rewrite Hl. exact Hg. Qed.
+
+Lemma sort_keys_rec_map es :
+  sort_keys_rec (TMap es) = TMap (sort_keys_entries (map (fun kv => (fst kv, sort_keys_rec (snd kv))) es)).
+Proof. reflexivity. Qed.
+
+Lemma sort_keys_rec_seq l : sort_keys_rec (TSeq l) = TSeq (map sort_keys_rec l).
+Proof. reflexivity. Qed.
+
+Theorem sort_keys_values_kept p : forall t,
+  unique_keys t -> get p (sort_keys_rec t) = option_map sort_keys_rec (get p t).
+Proof.
+  induction p as [|s p IH]; intros t HU; [reflexivity|].
+  destruct s as [k|n]; destruct t as [x|l|es]; try reflexivity.
+  - rewrite sort_keys_rec_map. cbn [get].
+    rewrite lookup_sort_keys by (rewrite keys_map_snd; apply unique_keys_here, HU).
+    rewrite lookup_map_snd. destruct (lookup k es) as [v|] eqn:El; cbn [option_map]; [|reflexivity].
+    apply IH. eapply unique_keys_key; eassumption.
+  - rewrite sort_keys_rec_seq. cbn [get]. rewrite nth_error_map.
+    destruct (nth_error l n) as [v|] eqn:El; cbn [option_map]; [|reflexivity].
+    apply IH. eapply unique_keys_idx; eassumption.
+Qed.
+
+Definition str_le (a b : str) : Prop := str_cmp a b <> Gt.
+
+Lemma sorted_keys_of_map es : NoDup (map fst es) ->
+  StronglySorted str_le (map fst (sort_keys_entries (map (fun kv => (fst kv, sort_keys_rec (snd kv))) es))).
+Proof.
+  intros HN. rewrite keys_sort_keys by (rewrite keys_map_snd; exact HN).
+  eapply StronglySorted_weaken; [|apply (psort_sorted str_ltb str_ltb_asym str_ltb_nt)].
+  intros a b H. unfold asc, str_ltb in H. unfold str_le.
+  rewrite (cl_antisym _ str_cmp_laws a b) in H. destruct (str_cmp a b); cbn in H; congruence.
+Qed.
+
+Theorem sort_keys_sorted p t es :
+  unique_keys t -> get p (sort_keys_rec t) = Some (TMap es) -> StronglySorted str_le (map fst es).
+Proof.
+  intros HU H. rewrite sort_keys_values_kept in H by exact HU.
+  destruct (get p t) as [t0|] eqn:E; cbn [option_map] in H; [|discriminate].
+  destruct t0 as [x|l|es0]; try discriminate.
+  rewrite sort_keys_rec_map in H. injection H as <-.
+  apply sorted_keys_of_map. apply (HU p). exact E.
+Qed.
+
+Theorem sort_keys_same_keys p t es0 :
+  unique_keys t -> get p t = Some (TMap es0) ->
+  exists es, get p (sort_keys_rec t) = Some (TMap es) /\ Permutation (map fst es0) (map fst es).
+Proof.
+  intros HU H. rewrite sort_keys_values_kept by exact HU. rewrite H. cbn [option_map].
+  rewrite sort_keys_rec_map. eexists. split; [reflexivity|].
+  rewrite keys_sort_keys by (rewrite keys_map_snd; apply (HU p), H).
+  rewrite keys_map_snd. apply psort_perm.
+Qed.
+
+Lemma consistentb_sound l : consistentb l = true -> consistent l.
+Proof.
+  unfold consistentb, consistent, all_keys. intros H a b Ha Hb x y Hx Hy.
+  rewrite forallb_forall in H.
+  assert (Hxa : In x (flat_map e_keys l)) by (apply in_flat_map; exists a; split; assumption).
+  assert (Hyb : In y (flat_map e_keys l)) by (apply in_flat_map; exists b; split; assumption).
+  specialize (H x Hxa). rewrite forallb_forall in H. apply H, Hyb.
+Qed.
